@@ -133,7 +133,15 @@ func (s *store) Consume(ctx context.Context, consumerName string, f func(uint64,
 		fd.Close()
 	}()
 
-	offset := Encoding.Uint64(stateOffset)
+	// The state file holds the number of records handed to f so far, i.e. the
+	// offset of the next record to hand over. The log can only seek to a
+	// record that exists, so reading resumes at the last record handed over,
+	// which is then skipped instead of being handed over a second time.
+	next := Encoding.Uint64(stateOffset)
+	offset := next
+	if offset > 0 {
+		offset--
+	}
 	consumer := stream.NewConsumer(
 		stream.WithEOFBehaviour(stream.EOFBehaviourPoll),
 		stream.FromOffset(int64(offset)))
@@ -142,6 +150,9 @@ func (s *store) Consume(ctx context.Context, consumerName string, f func(uint64,
 	return consumer.Consume(ctx, cursor, func(c context.Context, b stream.Batch) error {
 		for idx, record := range b.Records {
 			newOffset := b.FirstOffset + uint64(idx)
+			if newOffset < next {
+				continue
+			}
 
 			verifPoint("consume.beforeCallback", newOffset)
 			err := f(newOffset, mustDecode(record))
@@ -150,7 +161,8 @@ func (s *store) Consume(ctx context.Context, consumerName string, f func(uint64,
 			}
 			verifPoint("consume.afterCallback", newOffset)
 			offset = newOffset
-			Encoding.PutUint64(stateOffset, offset)
+			next = offset + 1
+			Encoding.PutUint64(stateOffset, next)
 			verifPoint("consume.afterPersist", newOffset)
 			s.maybeTruncate(offset)
 			verifPoint("consume.afterTruncate", newOffset)
